@@ -97,26 +97,32 @@ pub fn case_roundtrip(va: &dyn VariantApi, bytes: &[u8], st: &CaseStats) -> Resu
     Ok(())
 }
 
-/// C04: an accepted string re-formats to its canonical upper-case form.
+/// C04: every string the parser ACCEPTS re-formats to its own upper-case form
+/// (prefix normalised): format(parse(s), WithVersion) == "T1" + upper(strip_prefix(s)).
+/// Acceptance is the implementation's; the expected text is computed syntactically.
 pub fn case_canonical(va: &dyn VariantApi, s: &[u8], st: &CaseStats) -> Result<(), String> {
     let v = va.v();
-    let Some(canon) = text::canonical(v, s, PrefixMode::Auto) else {
-        st.class("canonical: not well-formed (skipped)");
-        return Ok(());
-    };
     st.eval();
     let h = match va.from_str_bytes(s, None) {
         Ok(h) => h,
         Err(e) => {
-            // strict builds may reject; C15 judges those
             st.class(&format!("canonical: rejected {:?}", e));
             return Ok(());
         }
     };
+    let rest: &[u8] = if s.len() == v.len_str() { &s[2..] } else { s };
+    let mut canon = b"T1".to_vec();
+    canon.extend(rest.iter().map(|c| c.to_ascii_uppercase()));
     let mut buf = vec![0u8; v.len_str()];
     h.store_str(&mut buf, Prefix::WithVersion).map_err(|e| format!("store failed {:?}", e))?;
     if buf != canon {
-        return Err(format!("{}: format(parse({})) = {} != canonical {}", v.name, show(s), show(&buf), show(&canon)));
+        return Err(format!(
+            "{}: the parser accepts {} but re-formatting gives {} instead of its own upper-case form {} (so two different accepted strings denote the same hash, or the accepted text was not hexadecimal)",
+            v.name,
+            show(s),
+            show(&buf),
+            show(&canon)
+        ));
     }
     st.class("canonical: accepted");
     if s != &canon[..] {
